@@ -261,9 +261,9 @@ fn compile_pattern_chain(
         };
 
         // An anonymous relationship with an inline property map still needs a binding,
-        // otherwise its property predicates have nothing to refer to and are dropped.
+        // otherwise its property predicates have nothing to refer to.
         let edge_alias = rel_el.variable.clone().or_else(|| {
-            if rel_el.properties.is_some() && rel_el.variable_length.is_none() {
+            if rel_el.properties.is_some() {
                 let name = format!("_gen_{}", next_anon_id);
                 *next_anon_id += 1;
                 Some(name)
@@ -376,11 +376,13 @@ fn compile_pattern_chain(
             }
         }
 
+        // The inline property map of a variable-length relationship constrains the
+        // relationships of that segment only (its own list binding), not the whole path.
         if is_var_len
-            && let (Some(path_alias_name), Some(rel_props)) =
-                (path_alias.as_deref(), rel_el.properties.as_ref())
+            && let (Some(rel_list_alias), Some(rel_props)) =
+                (edge_alias.as_deref(), rel_el.properties.as_ref())
             && let Some(predicate) =
-                build_var_len_rel_properties_predicate(path_alias_name, rel_props)
+                build_var_len_rel_properties_predicate(rel_list_alias, rel_props)
         {
             plan = Plan::Filter {
                 input: Box::new(plan),
@@ -447,7 +449,7 @@ fn compile_pattern_chain(
 }
 
 fn build_var_len_rel_properties_predicate(
-    path_alias: &str,
+    rel_list_alias: &str,
     rel_props: &crate::ast::PropertyMap,
 ) -> Option<Expression> {
     let mut per_relationship_predicate: Option<Expression> = None;
@@ -476,10 +478,7 @@ fn build_var_len_rel_properties_predicate(
             name: "__quant_all".to_string(),
             args: vec![
                 Expression::Variable("__nervus_rel".to_string()),
-                Expression::FunctionCall(crate::ast::FunctionCall {
-                    name: "relationships".to_string(),
-                    args: vec![Expression::Variable(path_alias.to_string())],
-                }),
+                Expression::Variable(rel_list_alias.to_string()),
                 predicate,
             ],
         })
